@@ -2141,6 +2141,10 @@ def catalogue(t):
       slice_=dict(from_decl='n1'), externs=PLE_EXT,
       doc='the block-recursive step: split, first recursive call, Schur complement, second recursive call, fix-ups of A10, P, Q, '
           'L compression; the recursive calls, the triangular solve, the product and the L compression are function parameters')
+    F('m4ri/ple.c', '_mzd_ple', 'pleFull', fuels=['(v_A_nrows).toNat', '(v_A_ncols).toNat', '(v_A_nrows).toNat', '(v_A_ncols).toNat', '(v_A_ncols).toNat'],
+      externs=dict(PLE_EXT, mzd_copy=COPY, _mzd_ple_russian=dict(mats=(0,), perms=(1, 2), ret='i', writes=(0,), pwrites=(1, 2))),
+      doc='the WHOLE function: zero-row test, permutation initialisation, regime test (PLE cut-off numeral), base case through a copy '
+          '(Four-Russians PLE as a function parameter), recursive branch')
     F('m4ri/ple.c', '_mzd_ple', 'plePermInit', fuels=['(v_A_nrows).toNat', '(v_A_ncols).toNat'],
       slice_=dict(after='nrows', take_for=2, outs=['mem1_P_values', 'mem1_Q_values']),
       doc='P[i] = i for the zero rows, Q[i] = i')
